@@ -241,13 +241,14 @@ class Job:
 
     def __init__(self, pkg, harness, args="", tier="quick", workers=4, maxsteps=None, init=None, maporder=None,
                  timeout=None, maxpaths=None, qtimeout=None, allow_unsupported=(), allow_inconclusive=False,
-                 maxfan=None, note="", witnesses=40, native=True, order_repeats=0, no_complete_ok=False, hang_timeout=5.0):
+                 maxfan=None, note="", witnesses=40, native=True, order_repeats=0, no_complete_ok=False, hang_timeout=5.0, per_map_site=None):
         self.pkg, self.harness, self.args, self.tier = pkg, harness, str(args), tier
         self.workers, self.maxsteps, self.init, self.maporder = workers, maxsteps, init, maporder
         self.timeout, self.maxpaths, self.qtimeout = timeout, maxpaths, qtimeout
         self.allow_unsupported, self.allow_inconclusive = allow_unsupported, allow_inconclusive
         self.maxfan, self.note, self.witnesses, self.native = maxfan, note, witnesses, native
         self.order_repeats, self.no_complete_ok, self.hang_timeout = order_repeats, no_complete_ok, hang_timeout
+        self.per_map_site = per_map_site
 
     def key(self):
         k = "%s/%s(%s)" % (self.pkg, self.harness, self.args)
@@ -378,9 +379,21 @@ def run_check(pid, tier):
                     sem.release()
         futs = [(j, pool.submit(run, j)) for j in jobs]
         results = []
+        import copy
         for j, f in futs:
             res = f.result()
             results.append((j, res))
+            if j.per_map_site:
+                # one further run per map-range site reached by the reference run (sites in the
+                # soy packages matching the regex, with at least 2 keys), permuting that site only
+                sites = sorted(s for s, n in (res.get("map_sites") or {}).items() if n >= 2 and re.search(j.per_map_site, s)
+                               and "zz_verif" not in s)
+                sub = []
+                for s_ in sites:
+                    j2 = copy.copy(j)
+                    j2.maporder, j2.per_map_site, j2.note = s_, None, "permuting " + s_
+                    sub.append((j2, pool.submit(run, j2)))
+                futs.extend(sub)
             log("  %-60s paths=%-6d viol=%d unsup=%d inconc=%d q=%d %.1fs" % (
                 j.key(), res["paths"], len(res["violations"] or []), res["unsupported"], res["inconclusive"], res["queries"], res["wall_s"]))
 
